@@ -30,6 +30,7 @@ EXPLANATION = (
     "Round 7: (BLANKS, defect F30) the caller's subscripts string is re-bound to a blank-free copy on every path to the splitter; (ELLIPSIS right-aligned) the symbol list an operand's '...' is sliced from does not grow inside the replacing loop. "
     'Round 8: (BACKEND, shared with C01/C11) the pairwise implementation behind the front end keeps its conventions. '
     "Round 8 (engine E9): (EXPAND) the ellipsis rewriting's source is evaluated on a bounded family of equations and compared with numpy's rule. "
+    '(INTERLEAVEDEVAL) the interleaved conversion is evaluated on a bounded family of argument tuples. '
 )
 ASSUMPTIONS = ("numpy right-aligns the dimensions an ellipsis stands for and puts them first in an "
                "implicit output",)
